@@ -552,6 +552,112 @@ func ruleVariantBijective(c *Ctx, r *Report) {
 	default:
 		r.bad(rule, key, c.Pos(fn.Pos()), desc, fmt.Sprintf("%d map(s) consulted, none scanned: two variables of one witness may correspond to one variable of the other - f(A,B) and f(C,C) fall into one group when the more general witness comes second", len(maps)))
 	}
+	// (added after seed C11g) A pair of variables is recorded as new only where BOTH directions said "not seen":
+	// every store into a correspondence map lies where the comma-ok of a lookup in each of the maps is known
+	// false (directly, or because it is known equal to one that is). With only the forward lookup tested, a
+	// variable of the second witness that already has a partner silently gets a second one.
+	if len(maps) >= 2 && !ranged {
+		type look struct {
+			ok ssa.Value
+			m  map[ssa.Value]bool
+		}
+		var looks, plains []look
+		eachInstr(fn, func(in ssa.Instruction) {
+			l, isL := in.(*ssa.Lookup)
+			if !isL {
+				return
+			}
+			if _, isMap := l.X.Type().Underlying().(*types.Map); !isMap {
+				return
+			}
+			if !l.CommaOk {
+				// a plain lookup says "absent" when its result is known to be the zero value
+				lm := map[ssa.Value]bool{}
+				for _, o := range c.originSet(l.X) {
+					lm[o] = true
+				}
+				plains = append(plains, look{l, lm})
+				return
+			}
+			for _, ref := range *l.Referrers() {
+				if e, isE := ref.(*ssa.Extract); isE && e.Index == 1 {
+					lm := map[ssa.Value]bool{}
+					for _, o := range c.originSet(l.X) {
+						lm[o] = true
+					}
+					looks = append(looks, look{e, lm})
+				}
+			}
+		})
+		nst := 0
+		eachInstr(fn, func(in ssa.Instruction) {
+			mu, isMU := in.(*ssa.MapUpdate)
+			if !isMU {
+				return
+			}
+			hit := false
+			for _, o := range c.originSet(mu.Map) {
+				if maps[o] {
+					hit = true
+				}
+			}
+			if !hit {
+				return
+			}
+			nst++
+			k := fmt.Sprintf("%s/first-seen-store#%d", fname(fn), nst)
+			d := "a pair of variables is recorded only where neither of them has a partner yet"
+			facts := c.factsAt(in.Block())
+			knownFalse := map[ssa.Value]bool{}
+			for f := range facts {
+				if !f.pol {
+					knownFalse[f.cond] = true
+				}
+			}
+			for changed := true; changed; {
+				changed = false
+				for f := range facts {
+					bo, isB := f.cond.(*ssa.BinOp)
+					if !isB || !((bo.Op == token.EQL && f.pol) || (bo.Op == token.NEQ && !f.pol)) {
+						continue
+					}
+					if knownFalse[bo.X] && !knownFalse[bo.Y] {
+						knownFalse[bo.Y], changed = true, true
+					}
+					if knownFalse[bo.Y] && !knownFalse[bo.X] {
+						knownFalse[bo.X], changed = true, true
+					}
+				}
+			}
+			missing := 0
+			for m := range maps {
+				found := false
+				for _, l := range looks {
+					if l.m[m] && knownFalse[l.ok] {
+						found = true
+					}
+				}
+				for _, l := range plains {
+					if !l.m[m] {
+						continue
+					}
+					for f := range facts {
+						if x, op, k, ok := cmpConst(f.cond); ok && x == l.ok && k == 0 && ((op == token.EQL && f.pol) || (op == token.NEQ && !f.pol)) {
+							found = true
+						}
+					}
+				}
+				if !found {
+					missing++
+				}
+			}
+			if missing == 0 {
+				r.ok(rule, k, c.at(in), d, fmt.Sprintf("lookups in all %d maps are known to have found nothing here", len(maps)), true)
+			} else {
+				r.bad(rule, k, c.at(in), d, fmt.Sprintf("%d of the %d correspondence maps is not known to lack an entry here: a variable that already has a partner gets a second one, so f(A,B) and f(C,C) count as variants in one direction", missing, len(maps)))
+			}
+		})
+	}
 	r.analysed(rule, fname(fn))
 }
 
